@@ -3,7 +3,7 @@
    Only statements; proofs are in Proofs/MpsIndexP.v and Proofs/MpsFormP.v.  The numerical claims (QR/SVD results,
    Schmidt values) are checked by the oracle of harness/c07.py, not proved. *)
 From TenpyV Require Import Base.Prelude Model.MpsIndex Model.MpsForm Proofs.MpsIndexP Proofs.MpsFormP.
-From TenpyV Require Import Model.MpsDenote Proofs.MpsDenoteP.
+From TenpyV Require Import Model.MpsDenote Proofs.MpsDenoteP Model.MpsDenoteCheck Proofs.MpsDenoteCheckP.
 From TenpyV Require Import Model.Charge Model.Tensor Model.TensorOps Model.MpsProduct Proofs.MpsProductP.
 Open Scope Z_scope.
 
@@ -138,6 +138,26 @@ Theorem T07_convert_progress :
   exists st' : vmps M, vapply_op M mul sv fin op st = Some st'.
 Proof. exact vapply_progress. Qed.
 
+(* ---- the CONCRETE structure that is executed against the implementation in the stream `valued`
+   (Model/MpsDenoteCheck.v: tensors with dyadic entries (m, k) = m 2^k, s_j = 4^(k_j), sv b e = diag 2^(k_j e),
+   xmul = row / column scaling) is not a monoid with a global unit, so it is not literally an instance of the
+   hypotheses of T07_convert_preserves_denotation; the consequences that theorem draws hold for it by Leibniz equality,
+   for every site, every list of singular-value exponents (any lengths), every stored label l and tensor t:
+   set_B(i, get_B(i, f), f) succeeds, relabels the site f, and afterwards get_B(i, g) returns EXACTLY the tensor it
+   returned before, for every g (path independence of the scalings: S^(f-l) then S^(g-f) is S^(g-l), left and right
+   scalings commute); and if the tensor fits its bonds, converting back to l restores the stored tensor exactly. *)
+Theorem T07_valued_instance_invariant :
+  forall (svlog : list (list Z)) (bl br : Z) (l a : form) (pd cl cr : Z) (t : tens) (f : form),
+  exists s' : vsite xm,
+    vconv xm xmul (xsv svlog) bl br (mkSite (Some l) a pd cl cr, XT t) f = Some s' /\
+    lab (fst s') = Some f /\
+    (forall g : form,
+       vget_B xm xmul (xsv svlog) bl br s' (full g) =
+       vget_B xm xmul (xsv svlog) bl br (mkSite (Some l) a pd cl cr, XT t) (full g)) /\
+    ((length t <= length (ksof svlog bl))%nat -> fits_cols (length (ksof svlog br)) t ->
+     exists s'' : vsite xm, vconv xm xmul (xsv svlog) bl br s' l = Some s'' /\ snd s'' = XT t /\ lab (fst s'') = Some l).
+Proof. exact valued_instance_invariant. Qed.
+
 (* ---- from_product_state at the level of charges (Model/MpsProduct.v; integer local states, any number of sites,
    any ChargeInfo with mods >= 1, any site legs, any chargeL), both for finite/segment (fin = true) and infinite bc:
    one tensor per site with legs (vL, site.leg, vR), its single block at (0, block of the chosen state, 0); every
@@ -197,6 +217,16 @@ Example ex_convert_history :
               window_den (Z * Z) xmul xsv false st' 2 3 = Some (105, 12).
 Proof. eexists. vm_compute. repeat split; reflexivity. Qed.
 
+(* the dyadic instance: a 2 x 2 x 1 tensor in form B between bonds with s = (4, 1/4) and s = (16); get_B(i, 'A') divides
+   the right side by 16 and multiplies the rows by 4, 1/4 *)
+Definition ex_svlog : list (list Z) := [[1; -1]; [2]].
+Definition ex_tens : tens := [[[(3, 0)]; [(1, 0)]]; [[(5, 0)]; [(-2, 1)]]].
+Example ex_valued_instance :
+  vget_B xm MpsDenoteCheck.xmul (MpsDenoteCheck.xsv ex_svlog) 0 1 (mkSite (Some fB) fB 2 2 1, XT ex_tens) (full fA)
+  = Some (XT [[[(3, 0 + 1 * 2 + 2 * -2)]; [(1, 0 + 1 * 2 + 2 * -2)]]; [[(5, 0 + -1 * 2 + 2 * -2)]; [(-2, 1 + -1 * 2 + 2 * -2)]]]) /\
+  (length ex_tens <= length (ksof ex_svlog 0))%nat /\ fits_cols (length (ksof ex_svlog 1)) ex_tens.
+Proof. split; [vm_compute; reflexivity|]. split; [cbn; lia|]. repeat constructor. Qed.
+
 (* product state: U(1) x Z_2 charges, spin-1/2-like legs, state up, up, down with chargeL = (3, 1) *)
 Definition ex_leg : leg := mkLeg [1%nat; 1%nat] [[1; 1]; [-1; 0]] 1.
 Definition ex_sites : list psite := [mkPsite ex_leg 0 0; mkPsite ex_leg 0 0; mkPsite ex_leg 1 0].
@@ -220,4 +250,5 @@ Print Assumptions T07_get_B_closed_form.
 Print Assumptions T07_window_den_closed.
 Print Assumptions T07_bond_address.
 Print Assumptions T07_convert_progress.
+Print Assumptions T07_valued_instance_invariant.
 Print Assumptions T07_product_state.
